@@ -227,6 +227,28 @@ fn run_field<N: Fld>(case: &Case, mut o: Obs) -> Outcome {
         }
     }
     o.set("ratio_product", prod_worst);
+    // operands with different zero tolerances: the product is formed under the LEFT operand's tolerance (for `a *= b`
+    // that is a's own); a looser tolerance on the right operand must not make the product lose its leading coefficient
+    if degree_claim && fft {
+        let pb_loose: Polynomial<N> = mk(&b, 4.0 * lead);
+        o.label("mixed-tolerances");
+        let mixed: Vec<(&str, Polynomial<N>)> = vec![
+            ("&a * &b(loose tolerance)", &pa * &pb_loose),
+            ("a *= &b(loose tolerance)", {
+                let mut p = pa.clone();
+                p *= &pb_loose;
+                p
+            }),
+        ];
+        for (name, p) in &mixed {
+            if let Err(m) = cmp_vec(name, &coefs(p, upto.max(p.order() + 2)), &prod, pbound, 0.0) {
+                return o.fail(m);
+            }
+            if p.order() != na + nb - 2 {
+                return o.fail(format!("{name}: product has order {}, expected {} (left tolerance {tol:e}, right tolerance {:e}, leading coefficient {lead:e})", p.order(), na + nb - 2, 4.0 * lead));
+            }
+        }
+    }
     if fft && std::env::var("C11_CALIB").is_ok() {
         let nn = (2 * na.max(nb)).next_power_of_two();
         let g = coefs(&forms[0].1, na + nb - 1);
@@ -432,7 +454,7 @@ pub fn run(opts: &Opts) -> i32 {
     }
     spec.cases = opts.tier.pick(60_000, 2_000_000);
     spec.essential = vec![("fft", 0.4), ("complex", 0.3), ("degree-claim", 0.2), ("linear-path", 0.03), ("scalar-path", 0.03)];
-    spec.rule = "generated: pairs of coefficient vectors of length 1..41 (quick) / 1..129 (thorough), magnitudes 10^[-3,3] with random signs, shapes dense/sparse/palindromic/tiny-trailing/tiny-leading, lengths biased to 1,2,3 and 2^k-1,2^k,2^k+1; real and complex; zero tolerance either 10^[0.5,4] x ((16+N) eps |a|_1 |b|_1) or absolute 10^[-14,-6]; one case in twelve has a loose absolute tolerance 10^[-6,-1] with one operand a constant (or short) whose leading coefficient lies just below it. Oracle: naive O(n^2) coefficient algebra in the harness; +,-,neg,scalar ops through every owned/borrowed/assigning form within 4 eps relative; products (8 forms incl. commuted and assigning) within (16+N) eps |a|_1|b|_1 + 1.5 tol (N = FFT size), degree = sum of degrees when noise < tol < |lead|/2, pointwise product; dft = values at roots of unity (either orientation) and idft(dft(p)) = p. Non-trivial = both operands of length >= 3 (FFT path) or complex field. Distinct = distinct case JSON.".into();
+    spec.rule = "generated: pairs of coefficient vectors of length 1..41 (quick) / 1..129 (thorough), magnitudes 10^[-3,3] with random signs, shapes dense/sparse/palindromic/tiny-trailing/tiny-leading, lengths biased to 1,2,3 and 2^k-1,2^k,2^k+1; real and complex; zero tolerance either 10^[0.5,4] x ((16+N) eps |a|_1 |b|_1) or absolute 10^[-14,-6]; one case in twelve has a loose absolute tolerance 10^[-6,-1] with one operand a constant (or short) whose leading coefficient lies just below it. Oracle: naive O(n^2) coefficient algebra in the harness; +,-,neg,scalar ops through every owned/borrowed/assigning form within 4 eps relative; products (8 forms incl. commuted and assigning) within (16+N) eps |a|_1|b|_1 + 1.5 tol (N = FFT size), degree = sum of degrees when noise < tol < |lead|/2, pointwise product; with a looser tolerance on the right operand the product is still formed under the left operand's; dft = values at roots of unity (either orientation) and idft(dft(p)) = p. Non-trivial = both operands of length >= 3 (FFT path) or complex field. Distinct = distinct case JSON.".into();
     spec.assumptions = vec!["naive harness product error (<= (n+m) eps |a|_1|b|_1) is inside the 64 eps allowance".into()];
     spec.max_shrink_iters = 2000;
     run_spec(spec, opts)
